@@ -284,6 +284,68 @@ tape_harness("deffilter_quick", [("t", 10)], {}, lambda t: deffilter_body(t, "qu
 tape_harness("deffilter_thorough", [("t", 12)], {}, lambda t: deffilter_body(t, "thorough"), globals())
 
 
+def twinfiles_body(t):
+    """The SAME source text loaded from two files (a module vendored into a project, a copy of a library module kept next to
+    the program): the two code objects compare equal -- code objects compare by value and ignore co_filename -- but the
+    filter's verdict is about the FILE.  The shipped default filter is called as shipped (with whatever memoisation it has),
+    on both code objects in either order."""
+    libs, others = _roots()
+    roots = [libs[t.take(len(libs))], others[t.take(len(others))]]
+    stem = ("mod", "colorsys", "__init__")[t.take(3)]
+    names = ["/".join([r, stem + ".py"]) for r in roots]
+    order = (0, 1) if t.take(2) == 0 else (1, 0)
+    third = t.take(2) == 1  # ask again for the first file at the end
+    n_allow = t.take(3)
+    allow = None if n_allow == 0 else ("nomatch" if n_allow == 1 else stem)
+    base = F.mod_func.__code__
+    codes = [base.replace(co_filename=n) for n in names]
+    if not (codes[0] == codes[1] and codes[0] is not codes[1]):
+        return ("INCONCLUSIVE", "code objects of identical source from two files no longer compare equal on this interpreter")
+    saved = os.environ.get("MONKEYTYPE_TRACE_MODULES")
+    got = []
+    try:
+        if allow is None:
+            os.environ.pop("MONKEYTYPE_TRACE_MODULES", None)
+        else:
+            os.environ["MONKEYTYPE_TRACE_MODULES"] = allow
+        # a fresh copy of the shipped filter: memo tables filled by other paths of this process are not part of the case
+        flt = _fresh_default_filter()
+        seq = [order[0], order[1]] + ([order[0]] if third else [])
+        for i in seq:
+            got.append((i, bool(flt(codes[i]))))
+    finally:
+        if saved is None:
+            os.environ.pop("MONKEYTYPE_TRACE_MODULES", None)
+        else:
+            os.environ["MONKEYTYPE_TRACE_MODULES"] = saved
+    for pos, (i, g) in enumerate(got):
+        want = reference_filter(names[i], allow)
+        if g != want:
+            return check(False, lambda: f"default_code_filter on identical code from {names[i]!r} (call #{pos + 1} of {[names[j] for j, _ in got]}, "
+                                        f"MONKEYTYPE_TRACE_MODULES={allow!r}) -> {g}, the property says {want}")
+    return check(True)
+
+
+def _fresh_default_filter():
+    """monkeytype.config re-executed into a scratch module object: the shipped default_code_filter with EMPTY memo tables."""
+    import importlib.util
+
+    spec = importlib.util.spec_from_file_location("monkeytype._verif_config_copy", MC.__file__)
+    mod = importlib.util.module_from_spec(spec)
+    spec.loader.exec_module(mod)
+    return mod.default_code_filter
+
+
+tape_harness("twinfiles", [("t", 7)], {}, twinfiles_body, globals())
+
+
+def twinfiles_shards():
+    from engine.verdicts import enumerate_prefixes
+
+    pres = enumerate_prefixes(twinfiles_body, 3)
+    return [{f"t{j}": v for j, v in enumerate(p)} for p in pres]
+
+
 def deffilter_shards(name):
     from engine.verdicts import enumerate_prefixes
 
